@@ -262,3 +262,78 @@ pub fn c027(xs: &[f64], ns: &[i64], a: f64, b: f64, i: i64, j: i64, u: usize) ->
 pub fn c028(xs: &[f64], ns: &[i64], a: f64, b: f64, i: i64, j: i64, u: usize) -> i64 { let (tx, rx) = std::sync::mpsc::channel::<i64>(); tx.send(i).unwrap(); tx.send(j).unwrap(); drop(tx); let mut s = 0; while let Ok(v) = rx.recv() { s = s * 10 + v; } s }
 pub fn c029(xs: &[f64], ns: &[i64], a: f64, b: f64, i: i64, j: i64, u: usize) -> (Option<i64>, bool) { let (tx, rx) = std::sync::mpsc::sync_channel::<i64>(1); let full = tx.try_send(i).is_ok() && tx.try_send(j).is_err(); (rx.try_recv().ok(), full) }
 pub fn c030(xs: &[f64], ns: &[i64], a: f64, b: f64, i: i64, j: i64, u: usize) -> i64 { let s: &[i64] = if u > 2 { &ns[..2] } else { ns }; let t: Vec<i64> = s.iter().map(|x| x + 1).collect(); t.iter().rev().fold(0, |acc, x| acc * 10 + x) }
+
+// ------------------------------------------------------------------ second batch: traits, consts, more slices / iterators / control flow
+pub const K: usize = 4;
+pub const SCALE: f64 = 0.5;
+pub static TABLE: [i64; 3] = [10, 20, 30];
+pub trait Shape { fn area(&self) -> f64; fn name(&self) -> i64 { 0 } }
+pub struct Sq(pub f64);
+pub struct Rect(pub f64, pub f64);
+impl Shape for Sq { fn area(&self) -> f64 { self.0 * self.0 } fn name(&self) -> i64 { 1 } }
+impl Shape for Rect { fn area(&self) -> f64 { self.0 * self.1 } }
+fn total<S: Shape>(s: &S, k: f64) -> f64 { s.area() * k + s.name() as f64 }
+#[derive(Clone, Debug, PartialEq, PartialOrd, Default)]
+pub struct Rec { pub key: i64, pub w: f64, pub tags: Vec<i64> }
+#[derive(Clone, Copy, Debug, PartialEq, Eq, PartialOrd, Ord, Hash)]
+pub enum Lvl { Low = 1, Mid = 5, High = 9 }
+pub fn d001(xs: &[f64], ns: &[i64], a: f64, b: f64, i: i64, j: i64, u: usize) -> (usize, f64, i64) { (K + u, SCALE * a, TABLE[u % 3] + TABLE.iter().sum::<i64>()) }
+pub fn d002(xs: &[f64], ns: &[i64], a: f64, b: f64, i: i64, j: i64, u: usize) -> (f64, f64) { (total(&Sq(a), 2.0), total(&Rect(a, b), 0.5)) }
+pub fn d003(xs: &[f64], ns: &[i64], a: f64, b: f64, i: i64, j: i64, u: usize) -> f64 { let v: Vec<Box<dyn Shape>> = vec![Box::new(Sq(a)), Box::new(Rect(b, 2.0))]; v.iter().map(|s| s.area() + s.name() as f64).sum() }
+pub fn d004(xs: &[f64], ns: &[i64], a: f64, b: f64, i: i64, j: i64, u: usize) -> f64 { let s: &dyn Shape = if i > 0 { &Sq(a) } else { &Rect(a, b) }; s.area() }
+pub fn d005(xs: &[f64], ns: &[i64], a: f64, b: f64, i: i64, j: i64, u: usize) -> (bool, bool, bool) { let p = Rec { key: i, w: a, tags: ns.to_vec() }; let q = Rec { key: j, ..p.clone() }; (p == q, p < q, p.clone() == p) }
+pub fn d006(xs: &[f64], ns: &[i64], a: f64, b: f64, i: i64, j: i64, u: usize) -> (i64, usize, f64) { let r = Rec::default(); (r.key, r.tags.len(), r.w) }
+pub fn d007(xs: &[f64], ns: &[i64], a: f64, b: f64, i: i64, j: i64, u: usize) -> (i64, bool, Lvl) { let l = if i > 3 { Lvl::High } else if i > 0 { Lvl::Mid } else { Lvl::Low }; (l as i64, l > Lvl::Low, l.max(Lvl::Mid)) }
+pub fn d008(xs: &[f64], ns: &[i64], a: f64, b: f64, i: i64, j: i64, u: usize) -> (bool, bool) { ((i, a) < (j, b), (i, j) <= (j, i)) }
+pub fn d009(xs: &[f64], ns: &[i64], a: f64, b: f64, i: i64, j: i64, u: usize) -> f64 { use std::f64::consts::{PI, LN_2, E, FRAC_PI_2, SQRT_2, TAU, LN_10}; PI + LN_2 * E - FRAC_PI_2 / SQRT_2 + TAU - LN_10 }
+pub fn d010(xs: &[f64], ns: &[i64], a: f64, b: f64, i: i64, j: i64, u: usize) -> Vec<f64> { let mut v = xs.to_vec(); v.sort_by(|p, q| p.total_cmp(q)); v }
+pub fn d011(xs: &[f64], ns: &[i64], a: f64, b: f64, i: i64, j: i64, u: usize) -> Vec<f64> { let mut v = xs.to_vec(); v.sort_by(f64::total_cmp); v.reverse(); v }
+pub fn d012(xs: &[f64], ns: &[i64], a: f64, b: f64, i: i64, j: i64, u: usize) -> (Option<f64>, Option<f64>) { (xs.iter().copied().min_by(|p, q| p.total_cmp(q)), xs.iter().copied().reduce(f64::max)) }
+pub fn d013(xs: &[f64], ns: &[i64], a: f64, b: f64, i: i64, j: i64, u: usize) -> Vec<i64> { let mut v = ns.to_vec(); for c in v.chunks_mut(2) { c[0] += 100; } v }
+pub fn d014(xs: &[f64], ns: &[i64], a: f64, b: f64, i: i64, j: i64, u: usize) -> Vec<f64> { let mut v = xs.to_vec(); for (o, n) in v.iter_mut().zip(ns.iter()) { *o += *n as f64; } v }
+pub fn d015(xs: &[f64], ns: &[i64], a: f64, b: f64, i: i64, j: i64, u: usize) -> Vec<i64> { let mut v: Vec<i64> = Vec::new(); v.extend(ns.iter()); v.extend(ns.iter().rev().copied()); v }
+pub fn d016(xs: &[f64], ns: &[i64], a: f64, b: f64, i: i64, j: i64, u: usize) -> (Vec<i64>, Vec<i64>, Vec<f64>) { (Vec::from(ns), ns.into(), xs.to_owned()) }
+pub fn d017(xs: &[f64], ns: &[i64], a: f64, b: f64, i: i64, j: i64, u: usize) -> i64 { let v: Vec<Option<i64>> = ns.iter().map(|&x| if x > 0 { Some(x) } else { None }).collect(); v.iter().flatten().sum::<i64>() + v.iter().filter(|o| o.is_none()).count() as i64 * 100 }
+pub fn d018(xs: &[f64], ns: &[i64], a: f64, b: f64, i: i64, j: i64, u: usize) -> (i64, i64) { (std::cmp::max(i, j), std::cmp::min(u as i64, 3)) }
+pub fn d019(xs: &[f64], ns: &[i64], a: f64, b: f64, i: i64, j: i64, u: usize) -> (usize, bool, Vec<usize>) { ((2..u + 2).len(), (0..u).contains(&3), (0..u + 3).rev().skip(1).step_by(2).collect()) }
+pub fn d020(xs: &[f64], ns: &[i64], a: f64, b: f64, i: i64, j: i64, u: usize) -> Vec<(usize, i64)> { ns.iter().copied().enumerate().skip(1).step_by(2).collect() }
+pub fn d021(xs: &[f64], ns: &[i64], a: f64, b: f64, i: i64, j: i64, u: usize) -> (usize, bool) { (ns.iter().position(|&x| x == i).map_or(99, |p| p + 1), ns.get(u).is_some_and(|&x| x > 0)) }
+pub fn d022(xs: &[f64], ns: &[i64], a: f64, b: f64, i: i64, j: i64, u: usize) -> usize { let v = ns.to_vec(); let f = move || v.len() + u; f() }
+pub fn d023(xs: &[f64], ns: &[i64], a: f64, b: f64, i: i64, j: i64, u: usize) -> Option<i64> { let f = |k: usize| -> Option<i64> { let x = ns.get(k)?; let y = ns.get(k + 1)?; Some(x * y) }; f(u).or_else(|| f(0)) }
+pub fn d024(xs: &[f64], ns: &[i64], a: f64, b: f64, i: i64, j: i64, u: usize) -> i64 { let r = 'blk: { if i > 5 { break 'blk 1; } if j > 5 { break 'blk 2; } 3 }; r * 10 }
+pub fn d025(xs: &[f64], ns: &[i64], a: f64, b: f64, i: i64, j: i64, u: usize) -> i64 { let mut stack = ns.to_vec(); let mut s = 0; while let Some(x) = stack.pop() { if x < 0 { continue; } s = s * 2 + x; if s > 40 { break; } } s }
+pub fn d026(xs: &[f64], ns: &[i64], a: f64, b: f64, i: i64, j: i64, u: usize) -> i64 { let o = ns.get(u); let p = ns.get(1); if let (Some(x), Some(y)) = (o, p) { x + y } else if let Some(y) = p { *y } else { -1 } }
+pub fn d027(xs: &[f64], ns: &[i64], a: f64, b: f64, i: i64, j: i64, u: usize) -> [f64; 3] { let mut arr = [0.0f64; 3]; for (k, x) in xs.iter().take(3).enumerate() { arr[k] = *x * 2.0; } arr }
+pub fn d028(xs: &[f64], ns: &[i64], a: f64, b: f64, i: i64, j: i64, u: usize) -> i64 { let arr = [i, j, 7]; let mut s = 0; for x in arr { s = s * 3 + x; } s + arr.len() as i64 + arr.iter().max().copied().unwrap_or(0) }
+pub fn d029(xs: &[f64], ns: &[i64], a: f64, b: f64, i: i64, j: i64, u: usize) -> f64 { let g = [[a, b], [b, a]]; g[u % 2][(u + 1) % 2] + g.iter().map(|r| r[0]).sum::<f64>() }
+pub fn d030(xs: &[f64], ns: &[i64], a: f64, b: f64, i: i64, j: i64, u: usize) -> (i64, i64) { let t = (i, (j, u as i64)); let (p, (q, r)) = t; let swap = |(x, y): (i64, i64)| (y, x); let (s, _) = swap((p, q)); (s, r) }
+pub fn d031(xs: &[f64], ns: &[i64], a: f64, b: f64, i: i64, j: i64, u: usize) -> Vec<i64> { let recs: Vec<Rec> = ns.iter().map(|&k| Rec { key: k, w: k as f64 * a, tags: vec![k; 2] }).collect(); let mut keys: Vec<i64> = recs.iter().filter(|r| r.w >= 0.0).map(|r| r.key + r.tags.len() as i64).collect(); keys.sort_unstable(); keys }
+pub fn d032(xs: &[f64], ns: &[i64], a: f64, b: f64, i: i64, j: i64, u: usize) -> Option<i64> { let recs: Vec<Rec> = ns.iter().map(|&k| Rec { key: k, w: k as f64, tags: vec![] }).collect(); recs.iter().max_by(|p, q| p.w.partial_cmp(&q.w).unwrap()).map(|r| r.key) }
+pub fn d033(xs: &[f64], ns: &[i64], a: f64, b: f64, i: i64, j: i64, u: usize) -> f64 { let mean = xs.iter().sum::<f64>() / xs.len() as f64; let var = xs.iter().map(|x| (x - mean).powi(2)).sum::<f64>() / (xs.len() as f64 - 1.0); var.sqrt() }
+pub fn d034(xs: &[f64], ns: &[i64], a: f64, b: f64, i: i64, j: i64, u: usize) -> (f64, f64) { let (mut lo, mut hi) = (f64::INFINITY, f64::NEG_INFINITY); for &x in xs { if x < lo { lo = x; } if x > hi { hi = x; } } (lo, hi) }
+pub fn d035(xs: &[f64], ns: &[i64], a: f64, b: f64, i: i64, j: i64, u: usize) -> bool { xs.iter().all(|x| x.is_finite()) && !xs.iter().any(|x| x.is_nan()) && xs.iter().copied().fold(0.0, |s: f64, x| s + x.abs()) > 1.0 }
+pub fn d036(xs: &[f64], ns: &[i64], a: f64, b: f64, i: i64, j: i64, u: usize) -> u64 { let w = (u as u64).wrapping_sub(3); (w >> 60) + (w & 0xff) + (u as u64).rotate_left(3) + (i as u64 ^ j as u64).swap_bytes() % 7 }
+pub fn d037(xs: &[f64], ns: &[i64], a: f64, b: f64, i: i64, j: i64, u: usize) -> (i32, u16, i8, u64) { ((i * 3) as i32, (u * 70000 + 5) as u16, (j - 200) as i8, i as u64) }
+pub fn d038(xs: &[f64], ns: &[i64], a: f64, b: f64, i: i64, j: i64, u: usize) -> (i64, u64, usize) { ((a * 1e10) as i64, (-a) as u64, (b * 3.7) as usize) }
+pub fn d039(xs: &[f64], ns: &[i64], a: f64, b: f64, i: i64, j: i64, u: usize) -> Result<f64, String> { fn inv(x: f64) -> Result<f64, String> { if x == 0.0 { Err("zero".to_string()) } else { Ok(1.0 / x) } } let p = inv(a)?; let q = inv(b).map_err(|e| e + "!")?; Ok(p + q) }
+pub fn d040(xs: &[f64], ns: &[i64], a: f64, b: f64, i: i64, j: i64, u: usize) -> Vec<i64> { fn rec(k: i64, acc: &mut Vec<i64>) { if k <= 0 { return; } acc.push(k); rec(k - 2, acc); } let mut v = Vec::new(); rec(i.clamp(0, 9), &mut v); v }
+pub fn d041(xs: &[f64], ns: &[i64], a: f64, b: f64, i: i64, j: i64, u: usize) -> (i64, i64) { struct Ctr { n: i64 } impl Ctr { fn bump(&mut self) -> i64 { self.n += 1; self.n } fn into_n(self) -> i64 { self.n } } let mut c = Ctr { n: i }; let x = c.bump() + c.bump(); (x, c.into_n()) }
+pub fn d042(xs: &[f64], ns: &[i64], a: f64, b: f64, i: i64, j: i64, u: usize) -> i64 { let make = |k: i64| move |x: i64| x * k + j; let f = make(i); let g = make(2); f(g(1)) }
+pub fn d043(xs: &[f64], ns: &[i64], a: f64, b: f64, i: i64, j: i64, u: usize) -> Vec<i64> { let mut out = Vec::new(); let mut it = ns.iter(); while let Some(&x) = it.next() { if x == 0 { if let Some(&y) = it.next() { out.push(y * 10); } } else { out.push(x); } } out }
+pub fn d044(xs: &[f64], ns: &[i64], a: f64, b: f64, i: i64, j: i64, u: usize) -> Vec<i64> { let mut it = ns.iter().copied(); let firsts: Vec<i64> = it.by_ref().take(2).collect(); let rest: i64 = it.sum(); let mut v = firsts; v.push(rest); v }
+pub fn d045(xs: &[f64], ns: &[i64], a: f64, b: f64, i: i64, j: i64, u: usize) -> (Option<i64>, Option<i64>, usize) { let mut it = ns.iter().copied(); let f = it.next(); let l = it.next_back(); (f, l, it.len()) }
+pub fn d046(xs: &[f64], ns: &[i64], a: f64, b: f64, i: i64, j: i64, u: usize) -> (i64, i64) { let (evens, odds): (Vec<i64>, Vec<i64>) = ns.iter().partition(|&&x| x % 2 == 0); (evens.iter().sum(), odds.iter().product()) }
+pub fn d047(xs: &[f64], ns: &[i64], a: f64, b: f64, i: i64, j: i64, u: usize) -> f64 { xs.iter().zip(xs.iter().skip(1)).map(|(p, q)| (q - p).abs()).fold(0.0, f64::max) }
+pub fn d048(xs: &[f64], ns: &[i64], a: f64, b: f64, i: i64, j: i64, u: usize) -> Vec<f64> { xs.iter().map(|&x| if x.is_nan() { 0.0 } else { x.clamp(-1.0, 1.0) }).collect::<Vec<_>>().into_iter().rev().collect() }
+pub fn d049(xs: &[f64], ns: &[i64], a: f64, b: f64, i: i64, j: i64, u: usize) -> usize { let mut n = u; let mut c = 0; while n > 0 { n = n.saturating_sub(3); c += 1; } c + usize::MAX.saturating_add(u).min(5) }
+pub fn d050(xs: &[f64], ns: &[i64], a: f64, b: f64, i: i64, j: i64, u: usize) -> (f64, f64) { let mut acc = (0.0f64, 0.0f64); for (k, &x) in xs.iter().enumerate() { let d = x - acc.0; acc.0 += d / (k as f64 + 1.0); acc.1 += d * (x - acc.0); } acc }
+pub fn d051(xs: &[f64], ns: &[i64], a: f64, b: f64, i: i64, j: i64, u: usize) -> String { let mut s = String::new(); for &n in ns.iter().take(2) { if n > 0 { s.push_str("p"); } else { s.push_str("n"); } } s }
+pub fn d052(xs: &[f64], ns: &[i64], a: f64, b: f64, i: i64, j: i64, u: usize) -> (bool, usize) { let names = ["alpha", "beta", "gamma"]; (names.contains(&"beta"), names.iter().position(|&n| n == "gamma").unwrap_or(9) + names[u % 3].len()) }
+pub fn d053(xs: &[f64], ns: &[i64], a: f64, b: f64, i: i64, j: i64, u: usize) -> i64 { let v: Vec<(String, i64)> = vec![("a".to_string(), i), ("b".to_string(), j)]; v.iter().find(|(k, _)| k == "b").map(|(_, x)| *x).unwrap_or(0) }
+pub fn d054(xs: &[f64], ns: &[i64], a: f64, b: f64, i: i64, j: i64, u: usize) -> Vec<i64> { let mut grid = vec![vec![0i64; 3]; 2]; for r in 0..2 { for c in 0..3 { grid[r][c] = (r * 3 + c) as i64 * i; } } grid.concat() }
+pub fn d055(xs: &[f64], ns: &[i64], a: f64, b: f64, i: i64, j: i64, u: usize) -> (Vec<i64>, i64) { let mut v = ns.to_vec(); let last = v.last().copied().unwrap_or(0); v.iter_mut().filter(|x| **x < 0).for_each(|x| *x = 0); (v, last) }
+pub fn d056(xs: &[f64], ns: &[i64], a: f64, b: f64, i: i64, j: i64, u: usize) -> f64 { let w: Vec<f64> = xs.iter().map(|x| x.abs()).collect(); let s: f64 = w.iter().sum(); if s > 0.0 && s.is_finite() { w.iter().map(|x| x / s).map(|p| if p > 0.0 { -p * p.ln() } else { 0.0 }).sum() } else { -1.0 } }
+pub fn d057(xs: &[f64], ns: &[i64], a: f64, b: f64, i: i64, j: i64, u: usize) -> (u32, i64, usize) { let e = 3u32; (e.pow(2) + 2u32.saturating_sub(5), 10i64.pow(e) - (-2i64).pow(3), 1usize << (u % 8)) }
+pub fn d058(xs: &[f64], ns: &[i64], a: f64, b: f64, i: i64, j: i64, u: usize) -> Vec<i64> { let mut v = ns.to_vec(); v.sort_by(|p, q| q.abs().cmp(&p.abs()).then(p.cmp(q))); v }
+pub fn d059(xs: &[f64], ns: &[i64], a: f64, b: f64, i: i64, j: i64, u: usize) -> Option<usize> { (a > 0.0).then(|| u + 1).or((b > 0.0).then_some(7)) }
+pub fn d060(xs: &[f64], ns: &[i64], a: f64, b: f64, i: i64, j: i64, u: usize) -> (i64, i64) { let mut a1 = [1i64, 2, 3]; let mut b1 = [9i64, 8, 7]; a1.swap(0, 2); std::mem::swap(&mut a1, &mut b1); a1[1] += i; (a1.iter().sum(), b1[0]) }
